@@ -17,6 +17,9 @@ EXTENDS Integers, Sequences, FiniteSets, TLC
 CONSTANTS FixUintptr,   \* TRUE: model toString WITH a reflect.Uintptr case (FALSE = as in the code today)
           FixMapKey,    \* TRUE: model checkShowJS/JSON testing Stringer on the map KEY type (FALSE = on the map type, as today)
           FixMdURL      \* TRUE: model showInURL accepting Markdown stringers (FALSE = plain showInHTML, as today)
+\* a model variant m is a record of these three choices; every operator of part 2 takes it as first argument
+AsIs == [uintptr |-> FixUintptr, mapkey |-> FixMapKey, mdurl |-> FixMdURL]      \* as chosen by the configuration
+Intended == [uintptr |-> TRUE, mapkey |-> TRUE, mdurl |-> TRUE]                 \* the tables that satisfy the property
 
 (* ======================= Part 1: reference - what the property demands ======================= *)
 \* an observation o of one (cell, box):  o.box, o.builds \in {"ok","builderror",...}, o.runerr \in {"none","cannotshow",...}
@@ -252,31 +255,31 @@ CtxClass(a) == IF a = "JavaScript" THEN "js" ELSE IF a = "JSON" THEN "json" ELSE
 StringCtxs == {"text", "tag", "quoted attribute", "unquoted attribute", "CSS string", "JavaScript string",
                "JSON string", "tab code block", "spaces code block"}
 
-RECURSIVE ChkJSLike(_, _, _)
+RECURSIVE ChkJSLike(_, _, _, _)
 \* checkShowJS (lang = "JS") and checkShowJSON (lang = "JSON"); vis is the `types` argument
-ChkJSLike(lang, t, vis) ==
+ChkJSLike(m, lang, t, vis) ==
   LET d == Desc(t) IN
   IF InSeq(t, vis) THEN TRUE                                              \* slices.Contains(types, t)
   ELSE IF \/ Between(d.kind, "bool", "float64") \/ d.kind = "string" \/ d.id = "time"
           \/ Has(d, lang \o "Stringer") \/ Has(d, lang \o "EnvStringer") \/ Has(d, "error")
        THEN TRUE
   ELSE LET vis2 == Append(vis, t) IN
-       CASE d.kind = "array" -> ChkJSLike(lang, d.elem, vis2)
+       CASE d.kind = "array" -> ChkJSLike(m, lang, d.elem, vis2)
          [] d.kind = "iface" -> TRUE
          [] d.kind = "map" ->
               LET kd == Desc(d.key)
-                  sd == IF FixMapKey THEN kd ELSE d       \* the code tests t.Implements(...) on the map type
+                  sd == IF m.mapkey THEN kd ELSE d       \* the code tests t.Implements(...) on the map type
               IN /\ \/ kd.kind = "string"
                     \/ Between(kd.kind, "bool", "complex128")
                     \/ Has(sd, "Stringer")
                     \/ Has(sd, "EnvStringer")
-                 /\ ChkJSLike(lang, d.elem, vis2)
-         [] d.kind = "ptr" -> ChkJSLike(lang, d.elem, vis2)
-         [] d.kind = "slice" -> ChkJSLike(lang, d.elem, vis2)
-         [] d.kind = "struct" -> \A i \in 1..Len(d.fields) : ChkJSLike(lang, d.fields[i], vis2)
+                 /\ ChkJSLike(m, lang, d.elem, vis2)
+         [] d.kind = "ptr" -> ChkJSLike(m, lang, d.elem, vis2)
+         [] d.kind = "slice" -> ChkJSLike(m, lang, d.elem, vis2)
+         [] d.kind = "struct" -> \A i \in 1..Len(d.fields) : ChkJSLike(m, lang, d.fields[i], vis2)
          [] OTHER -> FALSE
 
-CheckShow(a, t) ==
+CheckShow(m, a, t) ==
   LET d == Desc(t) IN
   IF d.id = "any" THEN TRUE                                               \* t == emptyInterfaceType
   ELSE CASE a \in StringCtxs ->
@@ -296,8 +299,8 @@ CheckShow(a, t) ==
               \/ d.id = "bytes"
               \/ Has(d, "Stringer") \/ Has(d, "EnvStringer")
               \/ Has(d, "CSSStringer") \/ Has(d, "CSSEnvStringer") \/ Has(d, "error")
-         [] a = "JavaScript" -> ChkJSLike("JS", t, <<>>)
-         [] a = "JSON" -> ChkJSLike("JSON", t, <<>>)
+         [] a = "JavaScript" -> ChkJSLike(m, "JS", t, <<>>)
+         [] a = "JSON" -> ChkJSLike(m, "JSON", t, <<>>)
          [] a = "Markdown" ->
               \/ d.kind = "string"
               \/ Between(d.kind, "bool", "complex128")
@@ -306,41 +309,41 @@ CheckShow(a, t) ==
               \/ Has(d, "HTMLStringer") \/ Has(d, "HTMLEnvStringer") \/ Has(d, "error")
 
 \* ---- the dynamic table: toString and showIn*; result "ok" or "cannotshow"
-ToStringKinds == {"invalid", "bool", "int", "int8", "int16", "int32", "int64", "uint", "uint8", "uint16", "uint32", "uint64",
+ToStringKinds(m) == {"invalid", "bool", "int", "int8", "int16", "int32", "int64", "uint", "uint8", "uint16", "uint32", "uint64",
                   "float32", "float64", "string", "complex64", "complex128"}
-                 \cup (IF FixUintptr THEN {"uintptr"} ELSE {})
-ToStr(d) == IF d.kind \in ToStringKinds THEN "ok" ELSE "cannotshow"
+                 \cup (IF m.uintptr THEN {"uintptr"} ELSE {})
+ToStr(m, d) == IF d.kind \in ToStringKinds(m) THEN "ok" ELSE "cannotshow"
 
 AnyStringer(d) == Has(d, "Stringer") \/ Has(d, "EnvStringer") \/ Has(d, "error")
-ShowInText(d) == IF AnyStringer(d) THEN "ok" ELSE ToStr(d)             \* also showInTag, showInJSString, code blocks
-ShowInHTML(d) ==
+ShowInText(m, d) == IF AnyStringer(d) THEN "ok" ELSE ToStr(m, d)             \* also showInTag, showInJSString, code blocks
+ShowInHTML(m, d) ==
   IF \/ d.id = "HTML" \/ Has(d, "HTMLStringer") \/ Has(d, "HTMLEnvStringer")
      \/ Has(d, "Stringer") \/ Has(d, "EnvStringer") \/ d.id = "bytes" \/ Has(d, "error")
-  THEN "ok" ELSE ToStr(d)                                              \* native.Markdown without converter: toString
-ShowInAttribute(d) ==
-  IF AnyStringer(d) \/ d.id = "HTML" \/ Has(d, "HTMLStringer") \/ Has(d, "HTMLEnvStringer") THEN "ok" ELSE ToStr(d)
-ShowInCSS(d) ==
+  THEN "ok" ELSE ToStr(m, d)                                              \* native.Markdown without converter: toString
+ShowInAttribute(m, d) ==
+  IF AnyStringer(d) \/ d.id = "HTML" \/ Has(d, "HTMLStringer") \/ Has(d, "HTMLEnvStringer") THEN "ok" ELSE ToStr(m, d)
+ShowInCSS(m, d) ==
   IF \/ d.id = "CSS" \/ Has(d, "CSSStringer") \/ Has(d, "CSSEnvStringer")
      \/ AnyStringer(d) \/ d.id = "bytes" \/ d.kind = "string"
-  THEN "ok" ELSE ToStr(d)
-ShowInCSSString(d) == IF AnyStringer(d) \/ d.id = "bytes" THEN "ok" ELSE ToStr(d)
-ShowInMarkdown(d) ==
+  THEN "ok" ELSE ToStr(m, d)
+ShowInCSSString(m, d) == IF AnyStringer(d) \/ d.id = "bytes" THEN "ok" ELSE ToStr(m, d)
+ShowInMarkdown(m, d) ==
   IF \/ d.id = "Markdown" \/ Has(d, "MarkdownStringer") \/ Has(d, "MarkdownEnvStringer")
      \/ d.id = "HTML" \/ Has(d, "HTMLStringer") \/ Has(d, "HTMLEnvStringer") \/ AnyStringer(d)
-  THEN "ok" ELSE ToStr(d)
-ShowInURL(a, d) ==
-  IF FixMdURL /\ a = "Markdown" /\ (Has(d, "MarkdownStringer") \/ Has(d, "MarkdownEnvStringer")) THEN "ok"
-  ELSE ShowInHTML(d)
+  THEN "ok" ELSE ToStr(m, d)
+ShowInURL(m, a, d) ==
+  IF m.mdurl /\ a = "Markdown" /\ (Has(d, "MarkdownStringer") \/ Has(d, "MarkdownEnvStringer")) THEN "ok"
+  ELSE ShowInHTML(m, d)
 
 AllOk(S) == IF \A x \in S : x = "ok" THEN "ok" ELSE "cannotshow"
 
-RECURSIVE ShowInJSLike(_, _, _, _)
+RECURSIVE ShowInJSLike(_, _, _, _, _)
 \* showInJS / showInJSON.  z = the value is the zero value of its type (nil slice/map/pointer/interface);
 \* otherwise the driver's value is non-nil with one element.  vis guards the recursive type Rec, whose
 \* value ends in a nil pointer.
-ShowInJSLike(lang, t, z, vis) ==
+ShowInJSLike(m, lang, t, z, vis) ==
   LET d == Desc(t) IN
-  IF d.kind = "iface" THEN (IF z \/ d.dyn = "" THEN "ok" ELSE ShowInJSLike(lang, d.dyn, FALSE, vis))   \* case nil: "null"
+  IF d.kind = "iface" THEN (IF z \/ d.dyn = "" THEN "ok" ELSE ShowInJSLike(m, lang, d.dyn, FALSE, vis))   \* case nil: "null"
   ELSE IF \/ d.id = lang \/ Has(d, lang \o "Stringer") \/ Has(d, lang \o "EnvStringer")
           \/ d.id = "time" \/ Has(d, "error")
        THEN "ok"
@@ -348,33 +351,33 @@ ShowInJSLike(lang, t, z, vis) ==
   ELSE LET vis2 == Append(vis, t) IN
        CASE Between(d.kind, "bool", "float64") \/ d.kind = "string" -> "ok"
          [] d.kind = "slice" ->
-              IF d.id = "bytes" \/ z THEN "ok" ELSE ShowInJSLike(lang, d.elem, FALSE, vis2)
-         [] d.kind = "array" -> ShowInJSLike(lang, d.elem, z, vis2)
-         [] d.kind = "ptr" -> IF z THEN "ok" ELSE ShowInJSLike(lang, d.elem, FALSE, vis2)
+              IF d.id = "bytes" \/ z THEN "ok" ELSE ShowInJSLike(m, lang, d.elem, FALSE, vis2)
+         [] d.kind = "array" -> ShowInJSLike(m, lang, d.elem, z, vis2)
+         [] d.kind = "ptr" -> IF z THEN "ok" ELSE ShowInJSLike(m, lang, d.elem, FALSE, vis2)
          [] d.kind = "struct" ->
-              AllOk({ShowInJSLike(lang, d.fields[i], z, vis2) : i \in 1..Len(d.fields)})
+              AllOk({ShowInJSLike(m, lang, d.fields[i], z, vis2) : i \in 1..Len(d.fields)})
          [] d.kind = "map" ->
               IF z THEN "ok"
               ELSE LET k0 == Desc(d.key)
                        kd == IF k0.kind = "iface" THEN Desc(k0.dyn) ELSE k0      \* key.Interface().(type)
-                       ks == IF Has(kd, "Stringer") \/ Has(kd, "EnvStringer") THEN "ok" ELSE ToStr(kd)
-                   IN AllOk({ks, ShowInJSLike(lang, d.elem, FALSE, vis2)})
+                       ks == IF Has(kd, "Stringer") \/ Has(kd, "EnvStringer") THEN "ok" ELSE ToStr(m, kd)
+                   IN AllOk({ks, ShowInJSLike(m, lang, d.elem, FALSE, vis2)})
          [] OTHER -> "ok"          \* JS: "undefined/* scriggo: cannot represent ... */", JSON: "null" - no error
 
-Render(a, url, t, z) ==
+Render(m, a, url, t, z) ==
   LET d == Desc(t) IN
-  IF url THEN ShowInURL(a, d)
-  ELSE CASE a \in {"text", "tag", "JavaScript string", "JSON string", "tab code block", "spaces code block"} -> ShowInText(d)
-         [] a = "HTML" -> ShowInHTML(d)
-         [] a \in {"quoted attribute", "unquoted attribute"} -> ShowInAttribute(d)
-         [] a = "CSS" -> ShowInCSS(d)
-         [] a = "CSS string" -> ShowInCSSString(d)
-         [] a = "JavaScript" -> ShowInJSLike("JS", t, z, <<>>)
-         [] a = "JSON" -> ShowInJSLike("JSON", t, z, <<>>)
-         [] a = "Markdown" -> ShowInMarkdown(d)
+  IF url THEN ShowInURL(m, a, d)
+  ELSE CASE a \in {"text", "tag", "JavaScript string", "JSON string", "tab code block", "spaces code block"} -> ShowInText(m, d)
+         [] a = "HTML" -> ShowInHTML(m, d)
+         [] a \in {"quoted attribute", "unquoted attribute"} -> ShowInAttribute(m, d)
+         [] a = "CSS" -> ShowInCSS(m, d)
+         [] a = "CSS string" -> ShowInCSSString(m, d)
+         [] a = "JavaScript" -> ShowInJSLike(m, "JS", t, z, <<>>)
+         [] a = "JSON" -> ShowInJSLike(m, "JSON", t, z, <<>>)
+         [] a = "Markdown" -> ShowInMarkdown(m, d)
 
 \* ---- the property on the model, for one cell
-ModelB(c, t) == CheckShow(CtxOf(c)[1], t)
-ModelR(c, t, z) == Render(CtxOf(c)[1], CtxOf(c)[2], t, z) = "cannotshow"
-ModelBoxB(c, box) == CheckShow(CtxOf(c)[1], BoxType(box))
+ModelB(m, c, t) == CheckShow(m, CtxOf(c)[1], t)
+ModelR(m, c, t, z) == Render(m, CtxOf(c)[1], CtxOf(c)[2], t, z) = "cannotshow"
+ModelBoxB(m, c, box) == CheckShow(m, CtxOf(c)[1], BoxType(box))
 =============================================================================
